@@ -615,7 +615,7 @@ func deflate(data []byte, level int) []byte {
 // EncodeFileBlock wraps a payload as size prefix + BlobHeader + Blob, applying file-level
 // damage. It returns the bytes and the offsets (relative to the start of the block) just
 // after the size prefix and just after the BlobHeader.
-func EncodeFileBlock(typ string, payload []byte, useZlib bool, level int, indexData bool, dmg Damage) (out []byte, prefixEnd, hdrEnd int) {
+func EncodeFileBlock(typ string, payload []byte, useZlib bool, level int, indexLen int, dmg Damage) (out []byte, prefixEnd, hdrEnd int) {
 	var blob enc
 	switch {
 	case dmg.Kind == "unknown-encoding":
@@ -674,8 +674,8 @@ func EncodeFileBlock(typ string, payload []byte, useZlib bool, level int, indexD
 		typ = []string{"OSMHeader", "OSMFuture", ""}[dmg.Arg%3]
 	}
 	hdr.str(1, typ)
-	if indexData {
-		hdr.bytes(2, []byte{1, 2, 3})
+	if indexLen > 0 {
+		hdr.bytes(2, bytes.Repeat([]byte{1, 2, 3}, indexLen/3+1)[:indexLen])
 	}
 	ds := int64(len(blobBytes))
 	switch dmg.Kind {
@@ -722,7 +722,7 @@ func (f *File) Encode(dmg map[int]Damage) ([]byte, *Layout) {
 		if d.Kind == "garbage-headerblock" {
 			hp = bytes.Repeat([]byte{0xFF}, 24) // a well-formed blob whose payload is not a HeaderBlock
 		}
-		fb, pe, he := EncodeFileBlock("OSMHeader", hp, h.Zlib, 0, false, d)
+		fb, pe, he := EncodeFileBlock("OSMHeader", hp, h.Zlib, 0, 0, d)
 		lay.HeaderPrefixEnd, lay.HeaderBlobHeaderEnd = int64(pe), int64(he)
 		out = append(out, fb...)
 		lay.HeaderEnd = int64(len(out))
@@ -736,7 +736,7 @@ func (f *File) Encode(dmg map[int]Damage) ([]byte, *Layout) {
 		if mut := f.PayloadMut[i]; mut != nil {
 			payload = mut(payload)
 		}
-		fb, pe, he := EncodeFileBlock("OSMData", payload, b.Zlib, b.ZlibLevel, b.IndexData, d)
+		fb, pe, he := EncodeFileBlock("OSMData", payload, b.Zlib, b.ZlibLevel, b.indexLen(), d)
 		start := int64(len(out))
 		lay.Start = append(lay.Start, start)
 		lay.PrefixEnd = append(lay.PrefixEnd, start+int64(pe))
